@@ -114,7 +114,9 @@ func (j *Join) Exec() ([]any, error) {
 		{
 			return j.StraightJoin()
 		}
-	case j.joinType.IsHashJoin() || hashJoinAnalyze(j.leftIdent, j.rightIdent, j.joinExpr):
+	case hashJoinAnalyze(j.leftIdent, j.rightIdent, j.joinExpr):
+		// only conjunctions of equalities can be answered by hash lookup; a
+		// HASH_JOIN request on any other condition falls back to the nested loop
 		{
 			return j.HashJoin()
 		}
